@@ -164,42 +164,65 @@ Fixpoint run (selfref : bool) (s : state) (es : list event) : option state :=
 
 (* ---------- render trees and the deferred schedule ---------- *)
 (* The rendered structure, as far as the tables are concerned.
-   Prov p body            : a {% provide %} block with id p
-   Comp root r vis inj b  : a component render with id r; `root` = no parent component in its context (it is rendered at
-                            once, inside whatever is being rendered); vis = provide ids in its context; inj = ids it injects;
-                            b = what its template renders (fill content rendered at its slots included) *)
+   Prov p body                 : a {% provide %} block with id p
+   Comp root r vis inj inj2 b  : a component render with id r; `root` = no parent component in its context (its queue is
+                                 processed at once, inside whatever is being rendered); vis = provide ids in its context;
+                                 inj = ids it injects in get_context_data (BEFORE it registers, /repo 51f6eaa);
+                                 inj2 = ids it injects when its template is rendered (on_render_before);
+                                 b = what its template renders (fill content rendered at its slots included) *)
 Inductive tree :=
 | Prov (p : N) (body : list tree)
-| Comp (root : bool) (r : N) (vis inj : list N) (body : list tree).
+| Comp (root : bool) (r : N) (vis inj inj2 : list N) (body : list tree).
 
-(* imm ts: events while the template list ts is being rendered.
-   dfr ts: events produced later, when the post-render queue reaches the nested components ts left behind
+(* imm t : events while the template containing t is being rendered.
+   dfr t : events produced later, when the post-render queue reaches the nested components t left behind
            (placeholders are processed in order, depth first).
-   A nested component only registers and runs get_context_data (inject) when its tag is reached; its template is rendered
-   from the queue.  A root component runs its whole queue on the spot. *)
+   regs_imm / regs_dfr : the ids entered into the root's post_render_callbacks by those two phases, in order.
+   A component runs get_context_data (inject), then registers, when its tag is reached; a nested one returns a
+   placeholder and its template is rendered from the queue.  A root component runs its whole queue on the spot and then
+   (in a finally) unregisters every id of its render tree once more - a no-op after a clean render. *)
+Fixpoint regs_imm (t : tree) : list N :=
+  let regs_imml := fix regs_imml (ts : list tree) : list N := match ts with [] => [] | t :: r => regs_imm t ++ regs_imml r end in
+  match t with
+  | Prov p body => regs_imml body
+  | Comp true _ _ _ _ _ => []                     (* a root keeps its own table of callbacks *)
+  | Comp false r _ _ _ _ => [r]
+  end.
+Fixpoint regs_imml (ts : list tree) : list N := match ts with [] => [] | t :: r => regs_imm t ++ regs_imml r end.
+
+Fixpoint regs_dfr (t : tree) : list N :=
+  let regs_dfrl := fix regs_dfrl (ts : list tree) : list N := match ts with [] => [] | t :: r => regs_dfr t ++ regs_dfrl r end in
+  match t with
+  | Prov p body => regs_dfrl body
+  | Comp true _ _ _ _ _ => []
+  | Comp false _ _ _ _ body => regs_imml body ++ regs_dfrl body
+  end.
+Fixpoint regs_dfrl (ts : list tree) : list N := match ts with [] => [] | t :: r => regs_dfr t ++ regs_dfrl r end.
+
 Fixpoint imm (t : tree) : list event :=
   let imml := fix imml (ts : list tree) : list event := match ts with [] => [] | t :: r => imm t ++ imml r end in
   let dfrl := fix dfrl (ts : list tree) : list event := match ts with [] => [] | t :: r => dfr t ++ dfrl r end in
   match t with
   | Prov p body => PEnter p :: imml body ++ [PExit p]
-  | Comp true r vis inj body => CReg r vis :: map (CInject r) inj ++ imml body ++ dfrl body ++ [CDone r]
-  | Comp false r vis inj body => CReg r vis :: map (CInject r) inj
+  | Comp true r vis inj inj2 body =>
+      map (CInject r) inj ++ CReg r vis :: map (CInject r) inj2 ++ imml body ++ dfrl body ++ [CDone r]
+      ++ map CDone (r :: regs_imml body ++ regs_dfrl body)
+  | Comp false r vis inj inj2 body => map (CInject r) inj ++ [CReg r vis]
   end
 with dfr (t : tree) : list event :=
   let imml := fix imml (ts : list tree) : list event := match ts with [] => [] | t :: r => imm t ++ imml r end in
   let dfrl := fix dfrl (ts : list tree) : list event := match ts with [] => [] | t :: r => dfr t ++ dfrl r end in
   match t with
   | Prov p body => dfrl body
-  | Comp true r vis inj body => []
-  | Comp false r vis inj body => imml body ++ dfrl body ++ [CDone r]
+  | Comp true r vis inj inj2 body => []
+  | Comp false r vis inj inj2 body => map (CInject r) inj2 ++ imml body ++ dfrl body ++ [CDone r]
   end.
 
 Fixpoint imml (ts : list tree) : list event := match ts with [] => [] | t :: r => imm t ++ imml r end.
 Fixpoint dfrl (ts : list tree) : list event := match ts with [] => [] | t :: r => dfr t ++ dfrl r end.
 
-(* a page = the top-level template; everything it leaves behind is processed before Template.render returns only for
-   root components, so for a page rendered through Template.render all top-level components are roots; trace_of is
-   defined for every tree nevertheless *)
+(* a page = the top-level template. Through Template.render every top-level component is a root; trace_of is defined
+   for every tree nevertheless (what the page leaves in the queue is processed after it) *)
 Definition trace_of (page : list tree) : list event := imml page ++ dfrl page.
 
 (* ---------- well-formed trees ---------- *)
@@ -207,7 +230,7 @@ Fixpoint ids (t : tree) : list N :=
   let idsl := fix idsl (ts : list tree) : list N := match ts with [] => [] | t :: r => ids t ++ idsl r end in
   match t with
   | Prov p body => p :: idsl body
-  | Comp _ r _ _ body => r :: idsl body
+  | Comp _ r _ _ _ body => r :: idsl body
   end.
 Fixpoint idsl (ts : list tree) : list N := match ts with [] => [] | t :: r => ids t ++ idsl r end.
 
@@ -219,7 +242,7 @@ Fixpoint wf (avail : list N) (t : tree) : bool :=
   let wfl := fix wfl (avail : list N) (ts : list tree) : bool := match ts with [] => true | t :: r => wf avail t && wfl avail r end in
   match t with
   | Prov p body => wfl (p :: avail) body
-  | Comp _ r vis inj body => subset vis avail && subset inj vis && wfl vis body
+  | Comp _ r vis inj inj2 body => subset vis avail && subset inj vis && subset inj2 vis && wfl vis body
   end.
 Fixpoint wfl (avail : list N) (ts : list tree) : bool := match ts with [] => true | t :: r => wf avail t && wfl avail r end.
 
